@@ -290,6 +290,7 @@ func (pc *PeerConnection) onSignalingStateChange(newState SignalingState) {
 	pc.mu.RUnlock()
 
 	pc.log.Infof("signaling state changed to %s", newState)
+	verifEvent("sigstate", pc, newState)
 	if handler != nil {
 		go handler(newState)
 	}
